@@ -38,6 +38,24 @@ def from_rl(rl):
     return b"".join(bytes([b]) * n for b, n in rl)
 
 
+def _again(chk, fn, arg, expected, what, features):
+    """Encode and Decode are functions of their argument (ZeroCode.tla has no state): whatever a caller does to the
+    buffer an earlier call returned, the next call with the same argument answers the same."""
+    st, r1 = impl_call(fn, arg)
+    if st != "ok":
+        return
+    if isinstance(r1, bytearray):
+        for i in range(len(r1)):
+            r1[i] ^= 0xFF
+        r1.extend(b"\x07scribbled")
+    st, r2 = impl_call(fn, arg)
+    chk.count()
+    if st != "ok" or bytes(r2) != expected or (r2 is r1 and isinstance(r1, bytearray)):
+        chk.violation(what + " answers differently after the buffer an earlier call returned was edited in place",
+                      dict(features, kind=features["kind"] + "-again"),
+                      {"arg": list(arg)[:80], "expected": list(expected)[:80], "second_call": repr((st, r2))[:300]})
+
+
 def _machines(chk: Check, maxlen, dmaxlen):
     comp, expand = _fns()
     consts = "Alpha = {0,1,255} MaxLen = %d DAlpha = {0,1,2,255} DMaxLen = %d Cap = 300" % (maxlen, dmaxlen)
@@ -60,6 +78,9 @@ def _machines(chk: Check, maxlen, dmaxlen):
         chk.count()
         if r["row"] == "enc":
             inp, enc = bytes(r["inp"]), bytes(r["enc"])
+            # first of all, so that the buffer that gets scribbled on is the one a FIRST call returned
+            _again(chk, expand, enc, inp, "zero_code_expand", {"kind": "roundtrip-table", "inp": list(inp)})
+            _again(chk, comp, inp, enc, "zero_code_compress", {"kind": "enc-table", "inp": list(inp)})
             got = impl_call(lambda: bytes(comp(inp)))
             if got != ("ok", enc):
                 chk.violation("zero_code_compress differs from ZeroCode!Encode",
